@@ -260,5 +260,7 @@ fn vmp_apply_dft_to_dft_core<const OVERWRITE: bool, REIM>(
         }
     }
 
-    REIM::reim_zero(&mut res[col_max * n..]);
+    // Only `col_max - limb_offset` output limbs were produced above (the selection starts at
+    // `limb_offset`): everything after them is zero, not just the limbs from `col_max` on.
+    REIM::reim_zero(&mut res[(col_max - limb_offset) * n..]);
 }
